@@ -383,6 +383,9 @@ class _LongStage(CaseStage):
 REAL_DEPTH = [2]
 
 
+RULE += ". Further stages: " + 'forked-processes - a process that has encrypted 0/1/3 images forks, children and parent encrypt on (real entropy, all IVs of the family pairwise distinct)'
+
+
 def plan(tier):
     q = tier == "quick"
     REAL_DEPTH[0] = 2 if q else 3
